@@ -311,7 +311,7 @@ def run(ctx, col: Collector):
                   'subjects are searched among the columns of the table being built',
                   f'index subjects are not searched in `{res_var}.columns` (the table under construction)', node=tb.node, file=tb.file)
         # ColumnBlueprint.build: type becomes an element of database.enums
-        cb = idx.func(BP, 'ColumnBlueprint.build')
+        cb = inlined_info(idx, idx.func(BP, 'ColumnBlueprint.build'), depth=3)
         st = [n for n in ast.walk(cb.node) if isinstance(n, ast.Assign) and norm(n.targets[0]) == 'self.type']
         if not st:
             col.bad('C05-identity', 'ColumnBlueprint.build:enum-link', 'ColumnBlueprint.build never replaces the type name by the Enum object',
